@@ -97,6 +97,7 @@ pub fn pair_scenario(name: &str, doc_idx: &[usize], depth: usize, extra: &[Op]) 
         alphabet,
         key_opts: KeyOpts::default(),
         max_depth: depth,
+        track: false,
     }
 }
 
@@ -146,6 +147,7 @@ pub fn single_scenario(name: &str, docs: Vec<Value>, depth: usize, extra: &[Op])
         alphabet,
         key_opts: KeyOpts::default(),
         max_depth: depth,
+        track: false,
     }
 }
 
@@ -182,5 +184,6 @@ pub fn trio_scenario(name: &str, depth: usize) -> Scenario {
         alphabet,
         key_opts: KeyOpts::default(),
         max_depth: depth,
+        track: false,
     }
 }
